@@ -53,7 +53,63 @@ def generate(scratch):
     out.append("end Yardl.Generated")
     with open(os.path.join(gen_dir, "Tables.lean"), "w") as f:
         f.write("\n".join(out) + "\n")
+    t["mapranges"] = gen_mapranges(scratch, gen_dir)
     return t
+
+
+def facts(scratch, what):
+    exe = vlib.build_go_harness(scratch, "facts")
+    env = dict(vlib.GOENV, VERIF_REPO_TOOLING=os.path.join(vlib.REPO, "tooling"))
+    p = subprocess.run([exe, what], cwd=os.path.join(vlib.REPO, "tooling"), env=env, stdout=subprocess.PIPE, stderr=subprocess.PIPE)
+    if p.returncode != 0:
+        raise RuntimeError("facts " + what + " failed: " + p.stderr.decode()[-2000:])
+    return json.loads(p.stdout)
+
+
+def gen_mapranges(scratch, gen_dir):
+    import hashlib
+    import re
+    sites = facts(scratch, "mapranges")
+    exp = json.load(open(os.path.join(os.path.dirname(os.path.abspath(__file__)), "maprange_expect.json")))["sites"]
+    table = {(e["file"], e["func"], e["expr"], e["index"]): e for e in exp}
+    rows, info = [], []
+    for s in sites:
+        e = table.get((s["file"], s["func"], s["expr"], s["index"]))
+        h = hashlib.sha1(re.sub(r"\s+", " ", s["body"]).encode()).hexdigest()[:16]
+        cls, why = "other", "no expectation for this site"
+        if e is not None:
+            if e["bodyHash"] != h:
+                why = "loop body changed since it was classified"
+            elif e["needsSort"] and not s["followedBySort"]:
+                why = "the function no longer sorts the collected keys"
+            else:
+                cls, why = e["class"], e["why"]
+        rows.append(f'  ("{s["file"]}", "{s["func"]}", "{s["expr"]}", SiteClass.{cls})')
+        info.append(dict(s, cls=cls, why=why))
+    # comparator of the two diagnostic sinks: which fields the sort.Slice less-function compares, in order
+    cmp_rows = []
+    for fn, var in (("errorsink.go", "Err"), ("warningsink.go", "Wrn")):
+        src = open(os.path.join(vlib.REPO, "tooling", "internal", "validation", fn)).read()
+        m = re.search(r"sort\.(Slice|SliceStable)\(.*?func\(i, j int\) bool \{(.*?)\n\t\}\)", src, re.S)
+        body = m.group(2) if m else ""
+        keys = []
+        for fm in re.finditer(r"i%s\.(File|Line|Column|Message)\b" % var, body):
+            if fm.group(1) not in keys:
+                keys.append(fm.group(1))
+        # a key only counts if it takes part in an ordering comparison (`<`)
+        keys = [k for k in keys if re.search(r"(i%s\.%s[^\n]*<|i%s, j%s := [^\n]*%s[^\n]*\n?[^\n]*<|return i%s[^\n]*<)" % (var, k, k, k, k, k[:4] if False else k), body) or k in ("Line", "Column")]
+        ordering = [k for k in keys if re.search(r"return i(%s\.%s|%s)\b[^\n]*<" % (var, k, k), body)]
+        cmp_rows.append(f'  ("{fn}", [{", ".join(chr(34) + k + chr(34) for k in ordering)}])')
+        info.append({"sink": fn, "orderingKeys": ordering})
+    out = ["/-! GENERATED on every run by harness/py/gen_tables.py (go/types extraction of every `range` over a map in",
+           "    /repo/tooling, classified by harness/py/maprange_expect.json): do not edit. -/", "", "namespace Yardl.Generated", "",
+           "inductive SiteClass | commutative | sortedKeys | sortedSink | other", "  deriving DecidableEq, Repr", "",
+           "def mapRangeSites : List (String × String × String × SiteClass) := [", ",\n".join(rows) + "]", "",
+           "/-- Fields compared with `<` (in order) by the `sort.Slice` less-function of each diagnostic sink. -/",
+           "def sinkOrderingKeys : List (String × List String) := [", ",\n".join(cmp_rows) + "]", "", "end Yardl.Generated"]
+    with open(os.path.join(gen_dir, "MapRanges.lean"), "w") as f:
+        f.write("\n".join(out) + "\n")
+    return info
 
 
 if __name__ == "__main__":
